@@ -1,5 +1,5 @@
 (* parser.py: parse_segment, parse_fields, parse_field, parse_components, parse_component,
-   parse_subcomponents, and the child admission checks reachable from them
+   parse_subcomponents, and the child acceptance checks reachable from them
    (ElementList.append/_can_add_child, Field.add, Component.add, Segment.add,
    SupportComplexDataType._is_valid_child, Segment._is_valid_child).  Definitions only. *)
 From Coq Require Import List Bool ZArith NArith Init.Byte.
